@@ -335,7 +335,10 @@ class ParseMCNPCell:
             trcl_params += [1., 0., 0.,
                             0., 1., 0.,
                             0., 0., 1.]
-        elif '*' in elt:
+        elif trcl_params:
+            # this is the case where the transform parameters were given inline
             trcl_params = [float(x) for x in trcl_params]
-            trcl_params[3:] = list(map(to_cos, trcl_params[3:12]))
+            if '*' in elt:
+                trcl_params[3:12] = list(map(to_cos, trcl_params[3:12]))
+            trcl_params = normalize_transform(trcl_params)
         return tuple(trcl_params)
